@@ -42,7 +42,7 @@ UNITS = [
     # C02 as a whole: the generators are tens of thousands of lines of text emission of which a few functions are under
     # contract.  The sweep is the bounded evidence for the rest; it found 10 generator crashes on the pinned tree: 5
     # repaired, 5 recorded as open findings (unimplemented features and front-end gaps reported by assertion).
-    Native("accepted meta-models never make a generator raise", ["C02"], "native.c02:sweep", kind="bounded",
+    Native("accepted meta-models never make a generator raise", ["C02", "C03"], "native.c02:sweep", kind="bounded",
            bound="all eight targets on: two base meta-models (optional list of primitives / of classes) and every 4th "
                  "(thorough: every) single-edit mutant of them that the front end accepts, every hierarchy of <= 3 classes "
                  "of native/c05.py, the small recorded common meta-models (~1 700 / ~3 450 meta-models x 8 targets); a "
